@@ -1,4 +1,5 @@
 # SPDX-License-Identifier: MIT
+import math
 import warnings
 from dataclasses import dataclass, field
 from typing import TYPE_CHECKING, Dict, List, Optional, Tuple
@@ -248,7 +249,21 @@ class EncodeState:
                 odxraise(f"Illegal bit length for a float64 object ({bit_length})")
                 bit_length = 64
 
-            raw_value = float(internal_value)
+            try:
+                raw_value = float(internal_value)
+            except (TypeError, ValueError, OverflowError):
+                odxraise(f"The value '{internal_value!r}' is not a floating point number",
+                         EncodeError)
+                raw_value = 0.0
+
+            if base_data_type == DataType.A_FLOAT32 and math.isfinite(raw_value) and abs(
+                    raw_value) > 3.4028234663852886e+38:
+                # the largest value representable as 32 bit IEEE 754
+                # floating point number has been exceeded
+                odxraise(
+                    f"The value '{internal_value!r}' cannot be represented as a "
+                    f"32 bit floating point number", EncodeError)
+                raw_value = math.copysign(math.inf, raw_value)
 
         # If the bit length is zero, encode an empty value
         if bit_length == 0:
